@@ -24,7 +24,10 @@ CLAIMS = {
                 '(ascending key order) from which the inner steps reach something (PEG derivation through qualifier/filter/query/basicQuery with '
                 'the failing comparison alternatives, saveParams/loadParams by a frame lemma over all 46 actions, the existence verdicts of the '
                 'specification); the harness sends such texts (driver confirms Coq fchain_path) with the expected values from walking the document. '
-                'Not a theorem for the other step kinds (comparison filters, multi-name selectors, scripts): which AST a given text denotes (parser model vs '
+                'Comparison filters `[?(@ inner OP number)]` (CmpParse.v, CmpAddr.v; all six operators, inner single-valued, any number spelling the '
+                'grammar accepts that strconv.ParseFloat — a parameter of the model — parses) are steps of the same theorem: kept are the members whose '
+                'value at inner is a number, float64 or json.Number alike, in that relation to the literal (for != the complement). '
+                'Not a theorem for the other step kinds (string/bool/null/regex/path operands, !, &&, ||, multi-name selectors, scripts): which AST a given text denotes (parser model vs '
                 'real parser by tree dumps and through the API). Correspondence: generated paths x documents; the extracted '
                 'specification runs next to the model on every case (a model/spec difference is reported).',
         'note': NOTE_COMMON + EVAL_HYP + ' The specification states the library conventions explicitly (whole-match $ operands, both-absent rule of path == path).',
@@ -126,7 +129,7 @@ CLAIMS = {
                 'queries that select the same members (C09_mirror_equal_rank_ord for the four ordering pairs, C09_mirror_equal_rank_eq_paths '
                 'through C09_deep_equality_symmetric on documents with distinct keys, C09_mirror_equal_rank_eq_literals); <= / >= are < / > or == '
                 'on validated numbers. Correspondence + direct '
-                'oracle: families of related filters on containers of distinct members must satisfy the set identities on the real library.',
+                'oracle: families of related filters on containers of distinct members must satisfy the set identities on the real library. From the path TEXT: C09_comparison_filter_from_text (CmpParse.v, CmpAddr.v) — `$[?(@ inner OP number)]` for the six operators keeps exactly the members whose number at inner (float64 or json.Number) stands in the relation, != being the complement of ==; the harness sends such texts (driver confirms Coq fchain_path) over float64 / json.Number / mistyped / missing members with the expected selection computed from the document.',
         'note': NOTE_COMMON + ' The theorems assume good states and well-formed operand lists, which C03_invariant establishes for '
                 'well-formed trees. The equal-rank == duality between paths assumes the two values are decoded JSON (distinct keys, no foreign Go value).',
         'technique': 'Coq proof (list-level algebra bridged to the compute function) + relational oracle + correspondence'},
